@@ -263,5 +263,36 @@ CLAIMED['C14'] = dict(
          "is stated for unique keys only.",
     technique="TLA+ definitions + inverse laws evaluated by TLC; spec->code case replay; code->spec trace validation by TLC",
     design="3/C14")
+CLAIMED['C15'] = dict(
+    text="FileStore.tla models the store semantics of to* / append* / from* (to replaces, append extends, write_header / "
+         "header= add or drop exactly the header record) and the writer stack the functions run (open(mode) -> binary buffer "
+         "-> text wrapper with pending text -> rows -> flush -> detach -> close). TLC checks StoreCorrect, RoundTrip and "
+         "AppendExtends over all histories of 3 operations on small tables; the variant without the flush before detach is a "
+         "negative test TLC must refute. Every generated history is replayed on csv / tsv / pickle (and single writes on json, "
+         "json lines, json arrays) with cells drawn from adversarial classes (delimiters, quote characters, CR, LF, CRLF, NUL, "
+         "non-ASCII, astral, empty, edge spaces), 5 encodings, 6 delimiter/quotechar/quoting settings and 4 source kinds (path, "
+         ".gz, .bz2, MemorySource); after every operation the target is read back with the matching from* and compared with the "
+         "store the spec prescribes; to + append is compared byte-wise with to(cat). Buffer-level traces from a recording source "
+         "are validated by FileStoreTrace, which drives FileStore's own actions.",
+    note="Character-level encode/decode fidelity is sampled by the replay, not decided by TLC; QUOTE_NONE without escapechar and "
+         "QUOTE_NONNUMERIC with numeric cells are outside the stated domain. Two open findings are recorded (BOM-writing "
+         "encodings on compressed targets: known_findings.json F11a, F11b).",
+    technique="TLA+ store + writer-protocol model with negative test checked by TLC; TLC-generated histories replayed over "
+              "adversarial cells x encodings x dialects x sources; buffer traces validated by TLC",
+    design="3/C15")
+CLAIMED['C16'] = dict(
+    text="FileStore.tla's tee protocol (write the row, then yield it; flush at exhaustion; detach; close) satisfies "
+         "TeeTransparent (rows delivered = wrapped table, target = what to* stores) for all tables and header flags; "
+         "PassThrough.tla checks that progress (every batch size), clock, wrap and cache(n) on sequential passes deliver "
+         "exactly the wrapped items. Spec->code: 32 tables (adversarial cell classes, header-only, ragged, empty rows) x 20 "
+         "tee/to pairs (teecsv/teetsv/teepickle/teetext/teehtml with header flags, encodings, dialect, templates) x 3 source "
+         "kinds: the tee view's rows equal the wrapped table and, once consumed, its target equals byte for byte what the "
+         "matching to* writes; the same tables through 19 pass-through views (progress/log_progress batch sizes 1..4, clock, "
+         "wrap, cache limits None,1..4,10), three passes each. Code->spec: tee buffer traces validated by FileStoreTrace.",
+    note="teetext / teehtml on rectangular tables; byte equality on plain, in-memory and (decompressed) gzip targets; "
+         "interleaved iterators over cache() are C01.",
+    technique="TLA+ tee/writer protocol and pass-through models checked by TLC; rows and byte-equality replay against to*; "
+              "buffer traces validated by TLC",
+    design="3/C16")
 
 NOT_APPLICABLE = {}
